@@ -324,6 +324,10 @@ def handle (line : String) : String :=
   | "tr" :: id :: rest => handleTr id rest impl
   | "rd" :: id :: rest => handleRd id rest impl
   | "lw" :: id :: rest => handleLw id rest impl
+  -- the same over HTTP/1.0 and over HTTP/2: the protocol version of the request does not
+  -- enter the model (nor the property)
+  | "lw0" :: id :: rest => (handleLw id rest impl).replace "class=lw-" "class=lw-http10-"
+  | "lw2" :: id :: rest => (handleLw id rest impl).replace "class=lw-" "class=lw-h2-"
   | _ => bad "?" "unknown-stream"
 
 end Dropshot.DriverC12
